@@ -89,6 +89,15 @@ let rec leb n0 m =
 let ltb n0 m =
   leb (S n0) m
 
+(** val max : nat -> nat -> nat **)
+
+let rec max n0 m =
+  match n0 with
+  | O -> m
+  | S n' -> (match m with
+             | O -> n0
+             | S m' -> S (max n' m'))
+
 (** val eqb0 : bool -> bool -> bool **)
 
 let eqb0 b1 b2 =
@@ -6768,6 +6777,14 @@ type token =
 | TVerb of nat * text * text list
 | TTest of text option * text list * (nat * text) list * text list
 
+(** val tok_raw : token -> text list **)
+
+let tok_raw = function
+| TLine (_, l) -> l :: []
+| TFront (_, r) -> r
+| TVerb (_, _, r) -> r
+| TTest (_, _, _, r) -> r
+
 type mstate =
 | Top of bool
 | InFront of text list * text list
@@ -7283,6 +7300,79 @@ let rule_matches r line =
   | RNoEol t -> m_noeol (utf8_encode t) line
   | REscaped (_, b) -> m_escaped b line
   | _ -> false
+
+(** val has_command : (nat * text) list -> bool **)
+
+let has_command code =
+  existsb (fun p -> starts_with p_DOLLAR (snd p)) code
+
+(** val max_bt : nat -> text list -> nat **)
+
+let rec max_bt acc = function
+| [] -> acc
+| l :: r -> max_bt (max acc (count_bt l)) r
+
+(** val fence_for : text list -> text **)
+
+let fence_for body =
+  repeat bT (S (max_bt (S (S O)) body))
+
+(** val header : text option -> text **)
+
+let header cfg =
+  app sCRUT
+    (match cfg with
+     | Some c ->
+       app ((Npos (XO (XO (XO (XO (XO XH)))))) :: ((Npos (XI (XI (XO (XI (XI
+         (XI XH))))))) :: []))
+         (app (trim_start c) ((Npos (XI (XO (XI (XI (XI (XI XH))))))) :: []))
+     | None -> [])
+
+(** val update_tok : token -> text list list -> text list * text list list **)
+
+let update_tok t bodies =
+  match t with
+  | TLine (_, l) -> ((l :: []), bodies)
+  | TFront (lines, _) ->
+    ((app (dASHES :: []) (app lines (dASHES :: []))), bodies)
+  | TVerb (_, _, raw) -> (raw, bodies)
+  | TTest (cfg, comments, code, _) ->
+    if has_command code
+    then (match bodies with
+          | [] -> ([], [])
+          | b :: rest ->
+            let f = fence_for b in
+            ((app ((app f (header cfg)) :: [])
+               (app comments (app b (f :: [])))), rest))
+    else let b = map snd code in
+         let f = fence_for b in
+         ((app ((app f (header cfg)) :: []) (app comments (app b (f :: [])))),
+         bodies)
+
+(** val update_toks : token list -> text list list -> text list **)
+
+let rec update_toks ts bodies =
+  match ts with
+  | [] -> []
+  | t :: r ->
+    let (ls, rest) = update_tok t bodies in app ls (update_toks r rest)
+
+(** val update_md : text list -> text list list -> text list **)
+
+let update_md doc bodies = match bodies with
+| [] -> doc
+| _ :: _ -> update_toks (md_tokens doc) bodies
+
+(** val is_test : token -> bool **)
+
+let is_test = function
+| TTest (_, _, _, _) -> true
+| _ -> false
+
+(** val outside : token list -> text list **)
+
+let outside ts =
+  concat (map tok_raw (filter (fun t -> negb (is_test t)) ts))
 
 (** val make_exp : bool -> bool -> (nat -> bool) -> nat exp **)
 
